@@ -93,10 +93,24 @@ static void learn_name(void)
 }
 #endif
 
+#ifdef PROVIDES_FN
+/* variant "provides": exports a function for the variant "uses" (modules are opened RTLD_GLOBAL) */
+int verif_provided_fn(void) { return 42; }
+#endif
+#ifdef CALLS_DEP
+int verif_provided_fn(void);
+#endif
+
 #ifndef NO_POSTINIT
 void module_post_init(struct module *self)
 {
     (void)self;
+#ifdef CALLS_DEP
+    /* variant "uses": calls into the module it depends on - resolvable only once that module is loaded, which the
+     * loader guarantees before post-init, not before this file is opened */
+    if (verif_provided_fn() != 42)
+        ev("bad_call");
+#endif
 #ifdef NO_CTOR
     learn_name();
 #endif
